@@ -207,6 +207,13 @@ def judge(case, impl, model, spec, ctx):
         for n, ((alpn, sni), e, g) in enumerate(zip(case.meta["queries"], exp, got)):
             if g == [9]:
                 continue
+            # the known finding (the secondary channels' choice ignores which protocols are enabled) is judged at the door,
+            # where it is reported as such: a query that offers a disabled protocol to a ping / speedtest / reverse-proxy host
+            # is not judged here
+            known_p = {b"http/1.1": 1, b"h2": 2, b"h3": 3}
+            enabled = [pp for pp, fl in zip((1, 2, 3), case.meta["flags"][:3]) if fl]
+            if e is not None and e[0][0] != 0 and any(known_p.get(bytes(a)) not in enabled for a in alpn if bytes(a) in known_p):
+                continue
             what = "real TLS listener, SNI %r, ALPN offer %r" % (sni, [bytes(a) for a in alpn])
             # on TCP an HTTP/3 choice is refused
             want = None if (e is None or e[1] is None or e[1] == 3) else e[1]
